@@ -251,6 +251,27 @@ def check_learn_observer(ck, aname, algo, env, mkpol):
     ck.prove(f"observer.{aname}.learn_one_iteration", stubs.contracts(it0) + stubs.contracts(it1), goal, timeout=120, replay=rp_learn)
 
 
+def check_cross_process(ck, names):
+    """'a function of (environment, initial policy, hyper-parameters, key)': the traced program of iteration() and its captured constants are the same in
+    two fresh interpreter processes with different string-hash salts (PYTHONHASHSEED), i.e. nothing per-process leaks into the computation"""
+    import json
+    import os
+    import subprocess
+    import sys
+    digests = []
+    for seed in ("1", "2"):
+        env = dict(os.environ)
+        env["PYTHONHASHSEED"] = seed
+        p = subprocess.run([sys.executable, "-W", "ignore", "-m", "props.c11_worker"] + list(names), capture_output=True, text=True, env=env, cwd=core.ROOT, timeout=900)
+        line = [l for l in p.stdout.splitlines() if l.startswith("C11WORKER ")]
+        if not line:
+            raise RuntimeError("c11_worker failed: " + (p.stderr or p.stdout)[-600:])
+        digests.append(json.loads(line[0][len("C11WORKER "):]))
+    for aname in digests[0]:
+        ck.fact(f"purity.same_program_in_another_process.{aname}", digests[0][aname] == digests[1].get(aname),
+                f"sha256 of the traced iteration() program and constants under PYTHONHASHSEED=1: {digests[0][aname][:16]}…, under PYTHONHASHSEED=2: {str(digests[1].get(aname))[:16]}…")
+
+
 def main():
     ck = Check("C11", "reproducible, pure, unaffected by observers")
     ck.mode = "REAL"
@@ -271,6 +292,8 @@ def main():
         if aname in ("PPO", "DQN") or ck.thorough:
             with ck.section(f"learn.{aname}"):
                 check_learn_observer(ck, aname, algo, env, mkpol)
+    with ck.section("cross_process"):
+        check_cross_process(ck, [n for n in setups(ck.thorough) if not only or n == only])
     ck.finish("For each algorithm the real reset() and iteration() are traced once per callback set over an uninterpreted environment and the real (tiny) MLP "
               "policies with symbolic parameters; with the same symbolic inputs every output other than the callbacks' own state (policy, optimiser state, "
               "environment/policy state, buffers, counters, target networks) is shown equal to the run without observers (mostly identical terms; a solver "
